@@ -11,6 +11,30 @@ NOTE = ("Trusted: the symgo engine (fork of x/tools go/ssa/interp + SMT encoding
 
 # id -> (claim text, design ref)
 CLAIMS = {
+ "C17": ("PriorityQueue: one Get or Put from an arbitrary queue of 0..8 messages (real bufSize) with symbolic priorities and every "
+         "equality pattern of transaction numbers: Get delivers the highest-priority message among the oldest of each transaction "
+         "(ties: the earlier), removes exactly it, keeps the rest in order; concurrent scenario (bufSize shrunk to 2, 2 producers x 2 "
+         "Puts, 1 consumer, <=2 pre-emptions, sync.Cond modelled exactly): every message delivered exactly once, per-transaction FIFO, "
+         "no deadlock. A violating schedule cannot be forced natively (reported as inconclusive, exit 3).", "4 C17"),
+ "C20": ("tools.squeeze removes exactly the fields of deleted columns and trims trailing empties for all 3-field records of 0..1 "
+         "arbitrary bytes; compactTable from a cleanly closed in-memory database into another: table key(a) index(b) with 1..2 rows of "
+         "arbitrary 1-byte values, empty or non-empty trailing field, optional deleted column: same rows, count and schema text, rows "
+         "found through the rebuilt key index. Dump/load files and Compact's file handling are NOT covered.", "4 C20"),
+ "C28": ("Compare/Equal/Hash over pairs and triples of values: bool, small int, SuInt64, 16-digit decimals, strings/concats/excepts of "
+         "0..2 bytes, dates, timestamps, small objects: antisymmetry, transitivity (numbers |n|<10^16 and decimals), type order "
+         "bool<number<string<date<object, Equal symmetric and implies Compare 0 and equal Hash, members found under any Equal key "
+         "(number representations, objects with members in either order). The lossy 17-19 digit integer/decimal comparison is a "
+         "known finding.", "4 C28"),
+ "C34": ("Timestamps: scripts of 4 (thorough 5) events from {server clock tick with an arbitrary reading, direct server request, "
+         "client A/B request through the local batching, batch expiry of A/B}, server start at any time of day, clients optionally "
+         "mid-batch: all handed-out values pairwise distinct (date, time, extra byte) and each caller's sequence strictly increasing; "
+         "the real ticker goroutine applies clock readings as the sequential model assumes. The expiry goroutine's loop body is a "
+         "verbatim copy; SuDate.Plus is replaced by its contract at the ms-999 roll-over.", "4 C34"),
+ "C36": ("SuObject: one of 17 operations (Add, Insert, Set, Put, Delete, Erase, PopFirst/Last, Find, Unique, Sort, Reverse, DeleteAll, "
+         "Slice, Copy, SetDefault, Get) from a state of 0..3 list + 0..2 named members with keys around ListSize and colliding hash "
+         "tags, symbolic values, and with fully symbolic int64 keys on small states, equals a Go slice + association list model incl. "
+         "the migration of named integer keys into the list; Sort is stable and ordered by Compare; every mutator on a read-only "
+         "object/record panics and changes nothing.", "4 C36"),
  "C05": ("repair.search on a store holding 0..4 (thorough 5) state records, each intact or damaged (scanner run to completion first, "
          "checkState replaced for the empty metadata of the harness states): never a Go runtime error, 'none' when no intact state, "
          "the newest intact state and its offset when intact states are the older ones; OpenDbStor opens a store only if it ends "
